@@ -164,9 +164,9 @@ impl RollState {
     }
 
     fn age_rotation_necessary(age: Age, created_at: &DateTime<Local>) -> bool {
-        let now = Local::now();
         #[cfg(flexi_logger_verif)]
-        let now = crate::verif_hooks::now_or(now);
+        use crate::verif_hooks::Local;
+        let now = Local::now();
         match age {
             Age::Day => {
                 created_at.year() != now.year()
